@@ -148,6 +148,8 @@ def initial_texture(tex, n, seed):
         # cube-group orientations written with integer literals (an integer-typed array), distinct per grain
         octa = np.round(Rotation.create_group("O").as_matrix()).astype(np.int64)
         return octa[rng.permutation(24)[np.arange(n) % 24]], np.full(n, 1.0 / n)
+    if tex == "layoutc":   # the numbers of "layout" in plain C-ordered arrays
+        return np.ascontiguousarray(Rotation.random(n, random_state=seed + 17).as_matrix()), np.full(n, 1.0 / n)
     if tex == "layout":
         # the client's arrays in an unusual memory representation: orientations as a transposed view of the
         # transposes (same values, not C-contiguous), volumes as a strided view into a larger array
